@@ -22,6 +22,7 @@ def run(chk):
                            "one measure of that combination on every non-raising path")
     chk.rule("R-LOOPVAR", "in every Cluster loop over the signals, the signal read or written in the body is selected by the loop "
                           "variable (or is the master)")
+    chk.rule("R-LOOPCARRY", "in every Cluster loop over the signals no variable is loop-carried (upward-exposed read of a name assigned in the body)")
     chk.rule("R-MASTER", "no signal is modified on the path where the loop variable equals master_index; the master average is taken "
                          "from signal_by_index(master_index); correction = values - (slave_average - master_average), same window")
     chk.rule("R-KIND", "values handed to reset_values by the cluster stay arrays of unchanged length")
@@ -209,6 +210,16 @@ def cluster_rules(chk):
                         chk.ob("R-MASTER", c + "{master untouched}", "with loop variable == master_index no signal is modified", bool(assumed) and not writes,
                                derived="%d guard(s) recognised, %d modification(s) on the master path" % (len(assumed), len(writes)),
                                loc=writes[0].loc if writes else fi.loc(), inconclusive=(not assumed and not writes))
+    # each signal is treated independently: no variable carries a value from one iteration of a signal loop into the next
+    from ..defuse import loop_carried
+    for mname in sorted(ci.methods):
+        fi = ci.methods[mname]
+        loops = [n for n in ast.walk(fi.node) if isinstance(n, ast.For) and "self.signals" in ast.unparse(n.iter) and "range" in ast.unparse(n.iter)]
+        for lp in loops:
+            car = loop_carried(lp)
+            chk.ob("R-LOOPCARRY", "eqsig/multiple.py:Cluster.%s{signal loop}" % mname, "no state is carried between signals (every variable read in an "
+                   "iteration is assigned in that iteration or before the loop)", not car, derived="carried: %s" % car if car else "none carried",
+                   loc=fi.loc(lp), detail="a value found for one signal leaks into the treatment of the next" if car else None)
     # same_start arithmetic
     fi = ci.methods.get("same_start")
     if fi is not None:
